@@ -315,7 +315,8 @@ def run(ctx):
     # ---- e2e: identical histories with and without cache
     ne2e = 30 if ctx.thorough() else 8
     # regression histories first (they failed on the tree before the fix 'cache clean-up ignores misplaced files'), then fresh ones
-    e2e_lines = ["712448054 6 1", "561891451 6 1"]
+    # the third line reproduces the open finding foreign-longer-pack-in-cache-read-by-command
+    e2e_lines = ["712448054 6 1", "561891451 6 1", "457278160 6 1"]
     e2e_lines += ["%d %d %d" % (rng.randint(1, 10 ** 9), rng.choice([5, 6, 8]), 1 if j % 3 == 2 else 0) for j in range(ne2e - len(e2e_lines))]
     if ctx.replay:
         rp = json.load(open(ctx.replay))
@@ -345,6 +346,9 @@ def run(ctx):
         parts = out.split(" | ")
         if out.startswith("FAIL"):
             sig = "misplaced-cache-file-aborts-cleanup" if (ln.split()[2] == "1" and kv.get("diffs") == "0") else None
+            dl = [x for x in parts[1].split(" ;; ") if x.strip()] if len(parts) > 1 else []
+            if kv.get("diffs") != "0" and kv.get("stale") == "0" and dl and all("[foreign-longer-pack-in-cache]" in x for x in dl):
+                sig = "foreign-longer-pack-in-cache-read-by-command"
             what = "backup/forget/prune/check history: a step returns a different result with the cache than without" if kv.get("diffs") != "0" else \
                    "backup/forget/prune/check history: after a step of the cached handle the cache holds snapshot/index files the repository does not have"
             ctx.violation(what, {"e2e": ln, "detail": (parts[1] if kv.get("diffs") != "0" else parts[2])[:400], "result": out[:1500], "how_to_replay": "echo '<e2e>' > f; <target>/debug/c19 f e2e  (line: seed nsteps stray; harness/src/bin/c19.rs)"}, signature=sig)
